@@ -38,8 +38,7 @@ Record cobs := {
   q_part2 : list (list term);
   q_iso : bool;                 (* compare.isomorphic(g1, g2) *)
   q_isoeq : bool;               (* to_isomorphic(g1) == to_isomorphic(g2) *)
-  q_fail : bool;                (* exception / timeout / fuel *)
-  q_undet : bool                (* model only: verdicts not determined (finding FC14a, see Iso/Model.v kf) *)
+  q_fail : bool                 (* exception / timeout / fuel *)
 }.
 
 Definition canon_model (c : case) : cobs :=
@@ -47,17 +46,23 @@ Definition canon_model (c : case) : cobs :=
   | Some p1, Some p2, Some b =>
       (* m_iso_eq = length test, then m_isomorphic: evaluated once *)
       let e := if negb (Nat.eqb (length (c_g1 c)) (length (c_g2 c))) then false else b in
-      {| q_part1 := map nodes p1; q_part2 := map nodes p2; q_iso := b; q_isoeq := e; q_fail := false; q_undet := negb (N.eqb (kf c) 0) |}
-  | _, _, _ => {| q_part1 := []; q_part2 := []; q_iso := false; q_isoeq := false; q_fail := true; q_undet := false |}
+      {| q_part1 := map nodes p1; q_part2 := map nodes p2; q_iso := b; q_isoeq := e; q_fail := false |}
+  | _, _, _ => {| q_part1 := []; q_part2 := []; q_iso := false; q_isoeq := false; q_fail := true |}
   end.
 
 Definition class_eqb (a b : list term) : bool := seteqb term_eqb a b.
 Definition part_eqb (p q : list (list term)) : bool :=
   forallb (fun a => existsb (class_eqb a) q) p && forallb (fun b => existsb (class_eqb b) p) q.
 
+(* The partitions themselves are NOT compared: they depend on the order of the hash
+   values.  A class that receives no new item in a refinement step keeps the hash of its
+   parent, so two structurally different nodes (x p w1, x p w2 / y p w0 with w0 split off
+   later) can end with equal colour sums; whether that happens depends on which colour is
+   popped first.  rdflib treats it as a "hash collision" and merges the colours; with
+   SHA-256 and with the instance hash it happens for different inputs.  What is order-free
+   is checked by [canon_spec_ok] on both partitions: automorphic nodes share a class. *)
 Definition canon_obs_eqb (a b : cobs) : bool :=
-  part_eqb (q_part1 a) (q_part1 b) && part_eqb (q_part2 a) (q_part2 b)
-  && (q_undet a || q_undet b || (Bool.eqb (q_iso a) (q_iso b) && Bool.eqb (q_isoeq a) (q_isoeq b)))
+  Bool.eqb (q_iso a) (q_iso b) && Bool.eqb (q_isoeq a) (q_isoeq b)
   && negb (q_fail a) && negb (q_fail b).
 
 (* the partition is a partition of the blank nodes of the graph plus singleton
@@ -74,14 +79,26 @@ Definition part_ok (g : graph) (p : list (list term)) : bool :=
   && seteqb term_eqb (filter is_bnode all) (map Blank (bset g))
   && forallb (fun c => forallb is_bnode c || Nat.eqb (length c) 1) p.
 
-(* the verdicts are the oracle's; isomorphic graphs get partitions with the same
-   profile of class sizes (a consequence of the invariance of refinement) *)
+(* automorphic blank nodes (same orbit: the graph with u marked is isomorphic to the
+   graph with v marked) are in the same class *)
+Definition mark (g : graph) (u : N) : graph := (Blank u, Const 999, Const 999)%N :: g.
+Definition same_class (p : list (list term)) (u v : N) : bool :=
+  existsb (fun c => memb term_eqb (Blank u) c && memb term_eqb (Blank v) c) p.
+Definition orbit_closed (g : graph) (p : list (list term)) : bool :=
+  let bs := bset g in
+  forallb (fun u => forallb (fun v => if N.ltb u v
+                                      then (if iso_dec (mark g u) (mark g v) then same_class p u v else true)
+                                      else true) bs) bs.
+
+(* the verdicts are the oracle's; each partition is a partition of the blank nodes whose
+   classes are unions of automorphism orbits (a consequence of the invariance of
+   refinement that does not depend on the order of hash values) *)
 Definition canon_spec_ok (c : case) (o : cobs) : bool :=
   let i := iso_dec (c_g1 c) (c_g2 c) in
   negb (q_fail o)
   && Bool.eqb (q_iso o) i && Bool.eqb (q_isoeq o) i
   && part_ok (c_g1 c) (q_part1 o) && part_ok (c_g2 c) (q_part2 o)
-  && (if i then list_eqb Nat.eqb (profile (q_part1 o)) (profile (q_part2 o)) else true).
+  && orbit_closed (c_g1 c) (q_part1 o) && orbit_closed (c_g2 c) (q_part2 o).
 
 (* non-vacuity of the executable instance: a 6-cycle against a relabelled
    6-cycle and against two triangles (refinement cannot split either; the
